@@ -103,9 +103,21 @@ class OptimizationAbstract(ABC, Generic[T]):
 
         # Parallel mode
         with get_pool_executor(self._mode, self._workers) as executor:
-            executors = [executor.submit(self._init_agent) for _ in range(0, n_agents)]
+            if self._mode == ModeSolver.PROCESS:
+                # forked workers inherit the parent's RNG state: every evaluation gets its own stream, drawn here
+                seeds = np.random.randint(0, 2 ** 32, size=n_agents, dtype=np.uint64)
+                executors = [executor.submit(self._init_agent_seeded, int(seed)) for seed in seeds]
+            else:
+                executors = [executor.submit(self._init_agent) for _ in range(0, n_agents)]
             pop = get_pool_results(executors)
         return pop
+
+    def _init_agent_seeded(self, seed: int) -> Agent:
+        """
+        Initialize a random agent in a worker process, after seeding the worker's generator with the given seed.
+        """
+        np.random.seed(seed)
+        return self._init_agent()
 
     def _init_population(self):
         """
